@@ -196,6 +196,52 @@ def _avp_at_def(ex, st, a, b, p):
     from pyvc.speceval import SpecEnv
     body = ex.spec_bool(SpecEnv(st, {"a": a, "b": b, "p": p}), "avp_at_layout(a, b, p)")
     return VBool(Eq(_avp_at_term(ex, st, a, b, p), body))
+@R.specfn("wf_at")
+def _wf_at(ex, st, b, p):
+    """abstract name of wf_avp_at(b, p) (the AVP at offset p of b is well-formed); defining equation: wf_at_def"""
+    from pyvc.models import _ufun
+    return VBool(_ufun(ex, "wf_at", ["(Seq Int)", INT], "Bool", ex.unwrap(b).t, ex.num(p)))
+
+
+@R.specfn("wf_at_def")
+def _wf_at_def(ex, st, b, p):
+    from pyvc.models import _ufun
+    from pyvc.speceval import SpecEnv
+    body = ex.spec_bool(SpecEnv(st, {"b": b, "p": p}), "wf_avp_at(b, p)")
+    return VBool(Eq(_ufun(ex, "wf_at", ["(Seq Int)", INT], "Bool", ex.unwrap(b).t, ex.num(p)), body))
+
+
+def _avp_bytes_term(ex, st, a, b, p, q):
+    from pyvc.models import _ufun
+    a = ex.unwrap(a)
+    f = [ex.read_field(st, a, n) for n in ("code", "_vendor_id", "flags", "payload")]
+    return _ufun(ex, "avp_bytes_at", [INT, INT, INT, "(Seq Int)", "(Seq Int)", INT, INT], "Bool",
+                 f[0].t, f[1].t, f[2].t, f[3].t, ex.unwrap(b).t, ex.num(p), ex.num(q))
+
+
+@R.specfn("avp_bytes_at")
+def _avp_bytes_at(ex, st, a, b, p, q):
+    """the RFC 6733 encoding avp_wire(code, flags, vendor, payload) of AVP object `a` equals the bytes b[p:q]; kept as an
+    uninterpreted predicate of the four field values, b, p, q - its defining equation is instantiated where it is
+    established (Avp.from_unpacker) and where it is used (lemma decoded-list-re-encodes)"""
+    return VBool(_avp_bytes_term(ex, st, a, b, p, q))
+
+
+@R.specfn("avp_bytes_at_def")
+def _avp_bytes_at_def(ex, st, a, b, p, q):
+    from pyvc.speceval import SpecEnv
+    body = ex.spec_bool(SpecEnv(st, {"a": a, "b": b, "p": p, "q": q}),
+                        "avp_wire(a.code, a.flags, a._vendor_id, a.payload) == b[p:q]")
+    return VBool(Eq(_avp_bytes_term(ex, st, a, b, p, q), body))
+
+
+@R.specfn("avp_reencode_lemma")
+def _avp_reencode_lemma(ex, st, b, p):
+    """instance of the proved lemma `avp-reencode` at (b, p)"""
+    from pyvc.speceval import SpecEnv
+    return VBool(ex.spec_bool(SpecEnv(st, {"b": b, "p": p}), "implies(wf_avp_at(b, p), reenc_at(b, p))"))
+
+
 R.contract("Avp.from_unpacker", params={"unpacker": "Unpacker"}, returns="Avp",
            requires=["upos(unpacker) >= 0"],
            ensures=[("code", "result.code == d_code(ubuf(unpacker), old(upos(unpacker)))"),
@@ -206,6 +252,9 @@ R.contract("Avp.from_unpacker", params={"unpacker": "Unpacker"}, returns="Avp",
                     ("payload", "result.payload == d_payload(ubuf(unpacker), old(upos(unpacker)))"),
                     ("position", "upos(unpacker) == d_end(ubuf(unpacker), old(upos(unpacker)))"),
                     ("identical-to-the-wire", "avp_at(result, ubuf(unpacker), old(upos(unpacker)))"),
+                    ("a-well-formed-avp-re-encodes-to-its-bytes",
+                     "implies(wf_at(ubuf(unpacker), old(upos(unpacker))), "
+                     "avp_bytes_at(result, ubuf(unpacker), old(upos(unpacker)), upos(unpacker)))"),
                     ("progress", "upos(unpacker) >= old(upos(unpacker)) + 8"),
                     ("in-buffer", "upos(unpacker) <= len(ubuf(unpacker))"),
                     ("type", "ite(dict_known(result.code, result._vendor_id), "
@@ -217,7 +266,11 @@ R.contract("Avp.from_unpacker", params={"unpacker": "Unpacker"}, returns="Avp",
                          "d_end(ubuf(unpacker), upos(unpacker)) > len(ubuf(unpacker)) or "
                          "upos(unpacker) + 8 > len(ubuf(unpacker)) or "
                          "upos(unpacker) + d_hdr(ubuf(unpacker), upos(unpacker)) > len(ubuf(unpacker))", "iff")],
-           hints=["avp_at_def(result, ubuf(unpacker), old(upos(unpacker)))"],
+           hints_for={"identical-to-the-wire": ["avp_at_def(result, ubuf(unpacker), old(upos(unpacker)))"],
+                      "a-well-formed-avp-re-encodes-to-its-bytes": [
+                          "avp_reencode_lemma(ubuf(unpacker), old(upos(unpacker)))",
+                          "avp_bytes_at_def(result, ubuf(unpacker), old(upos(unpacker)), upos(unpacker))",
+                          "wf_at_def(ubuf(unpacker), old(upos(unpacker)))"]},
            modifies=["unpacker._Unpacker__pos"], allocates=True, props=["C01", "C04", "C02"])
 
 R.contract("Avp.from_bytes", params={"avp_data": "bytes"}, returns="Avp",
@@ -251,3 +304,18 @@ R.contract("Avp.new#novalue",
                     ("type", "avp_class_ok(dict_entry(avp_code, vendor_id).type)")],
            raises=[Raise("ValueError", "not dict_known(avp_code, vendor_id)", "iff")],
            allocates=True, props=["C01"])
+
+# ---- re-encoding a decoded, well-formed AVP reproduces its bytes (pure lemma over the layout functions) ----------
+R.macro("wf_avp_at", ["b", "p"],
+        "0 <= p and p + 8 <= len(b) and p + d_hdr(b, p) <= len(b) and d_end(b, p) <= len(b) and "
+        "d_len(b, p) >= d_hdr(b, p) and implies(d_hasv(b, p), d_vendor(b, p) != 0) and "
+        "b[p + d_hdr(b, p) + d_plen(b, p):d_end(b, p)] == zeros(pad4(d_plen(b, p)))")
+R.macro("reenc_at", ["b", "p"],
+        "avp_wire(d_code(b, p), d_flags(b, p) - 128 * bit7(d_flags(b, p)) + ite(d_vendor(b, p) != 0, 128, 0), "
+        "d_vendor(b, p), d_payload(b, p)) == b[p:d_end(b, p)]")
+R.lemma_ob("avp-reencode", vars={"b": "bytes", "p": "int"},
+           assumes=[("well-formed-avp", "wf_avp_at(b, p)")],
+           shows=[("bytes-reproduced", "reenc_at(b, p)")],
+           props=["C01", "C02"],
+           note="a well-formed AVP (length field covers its header, V flag iff a non-zero vendor id, zero padding) decoded by the "
+                "layout functions and encoded by avp_wire gives back exactly its bytes")
